@@ -320,7 +320,19 @@ func (g *Gen) passThenFail(n *Node) {
 	}
 }
 
-var keyPool = []string{"a", "b", "c", "name", "age", "Zed", "tags", "inner", "x_1", "d", "e", "qty"}
+var keyPool = []string{"a", "b", "c", "name", "age", "Zed", "tags", "inner", "x_1", "d", "e", "qty", "Alpha", "Beta"}
+
+func isExportedIdent(k string) bool {
+	if k == "" || k[0] < 'A' || k[0] > 'Z' {
+		return false
+	}
+	for _, c := range k {
+		if !(c == '_' || (c >= '0' && c <= '9') || (c >= 'a' && c <= 'z') || (c >= 'A' && c <= 'Z')) {
+			return false
+		}
+	}
+	return true
+}
 
 func upperFirst(k string) string {
 	if k[0] >= 'a' && k[0] <= 'z' {
@@ -772,6 +784,16 @@ func (g *Gen) Input(n *Node) V {
 		if stringly {
 			out.Typed = true
 			return out
+		}
+		if r.P(1, 5) {
+			// a Go struct (or a pointer to one) as input: only exported field names can carry a value
+			so := V{K: "so", Typed: r.P(1, 3)}
+			for _, kv := range out.O {
+				if isExportedIdent(kv.K) {
+					so.O = append(so.O, kv)
+				}
+			}
+			return so
 		}
 		if r.P(10, 100) {
 			out.O = append(out.O, KV{"unknown_key", VInt(1)})
